@@ -124,6 +124,7 @@ func (g *Gen) verifyFunction(fn *ssa.Function, sp *FuncSpec) *FnCtx {
 		r := retInfo{block: nil, seq: 1 << 30, guard: exitG, res: res, state: exitSt}
 		fc.exit = &r
 		renv := fr.specEnv(r.state, nil, nil)
+		renv.lookup = func(n string) (Val, bool) { return fr.lookupExitLocal(n, r.state) }
 		for i, v := range r.res {
 			renv.names[fmt.Sprintf("result%d", i)] = v
 			if i < len(rnames) && rnames[i] != "" && rnames[i] != "_" {
@@ -161,6 +162,30 @@ func (g *Gen) verifyFunction(fn *ssa.Function, sp *FuncSpec) *FnCtx {
 		// explicit frame
 		if sp.HasMod && !fc.thin {
 			fc.frameObligs(fr, r, suffix)
+		}
+		if sp.HasMod && fc.thin {
+			// thin mode: the declared frame is checked at array-name granularity against the set inferred from the body
+			inf := fc.g.bodyMods(fc, fn)
+			decl := newModSet()
+			fc.g.specMods(fc, sp, decl)
+			if inf.All {
+				fc.note("frame of thin function " + sp.Name + " is assumed (a callee without contract or frame is reachable)")
+			} else if !decl.All {
+				var missing []string
+				for n := range inf.Names {
+					if !decl.Names[n] && !strings.HasPrefix(n, "L?") && !strings.HasPrefix(n, "FV?") && !fc.isLocalArr(n) {
+						missing = append(missing, n)
+					}
+				}
+				sort.Strings(missing)
+				goal := "true"
+				if len(missing) > 0 {
+					goal = "false"
+				}
+				fc.addObligAt(&Oblig{Name: sp.Name + "/frame:names", Kind: "frame", Tags: sp.allTags(), goal: goal,
+					Text: "every array the body may write is listed in modifies; missing: " + strings.Join(missing, " ")}, nil, 1<<30)
+				fc.note("frame of thin function " + sp.Name + " checked at array-name granularity only; object-level entries are assumed")
+			}
 		}
 	}
 	// loops carrying a failed-call flag: the flag must be false when the loop head is reached again
@@ -237,12 +262,23 @@ func (fc *FnCtx) frameObligs(fr *Frame, r retInfo, suffix string) {
 	if ms.All {
 		return
 	}
+	for _, n := range fc.g.freshMods(fc, fc.spec) {
+		_ = n // rows of fresh objects: covered by the pre-existing-object quantifier below
+	}
 	penv := fr.specEnv(fc.entry, nil, nil)
 	pkeys := map[string][]string{}
 	for _, pm := range fc.g.pointMods(fc, fc.spec) {
 		kv := penv.tr(pm.key)
+		k := kv.S
+		if kindOf(kv.T) == KIface {
+			k = kv.Sub[1].S
+		}
+		if pm.cond != nil {
+			// a guarded entry: when the guard is false the key is one the array is already allowed to keep (no-op store)
+			k = "(ite " + penv.bool(pm.cond) + " " + k + " (- 987654321))"
+		}
 		for _, n := range pm.names {
-			pkeys[n] = append(pkeys[n], kv.S)
+			pkeys[n] = append(pkeys[n], k)
 		}
 	}
 	var names []string
